@@ -309,6 +309,7 @@ func ZZ_C17_Retention() {
 	ents = append(ents,
 		zzEnt{name: "whatap-other-" + old + ".log", age: 40, own: true},
 		zzEnt{name: "whatap-a-b-" + old + ".log", age: 40, own: true},
+		zzEnt{name: "whatap-node-10.0.0.7-" + old + ".log", age: 40, own: true}, // object name with dots
 		zzEnt{name: "whatapx-boot-" + old + ".log"},
 		zzEnt{name: "xwhatap-boot-" + old + ".log"},
 		zzEnt{name: "whatap_boot_" + old + ".log"},
@@ -428,7 +429,7 @@ func ZZ_C17_ReadConfined() {
 	zzvf.FsMkdir(filepath.Join(home, "logs2"))
 	zzvf.FsWrite(filepath.Join(home, "logs2", "s"), []byte("SECRET"), 1700000000000000000)
 	var file string
-	c := zzvf.Choose(12)
+	c := zzvf.Choose(16)
 	switch c {
 	case 0:
 		file = zzvf.String(4)
@@ -436,7 +437,8 @@ func ZZ_C17_ReadConfined() {
 			zzvf.Assume(file[i] != 0)
 		}
 	default:
-		file = []string{"s", "../s", "./s", "d/s", "d/../s", "d/../../s", "../logs/s", "/s", "../logs2/s", "d/../../logs2/s", "../logs2/../logs/s"}[c-1]
+		file = []string{"s", "../s", "./s", "d/s", "d/../s", "d/../../s", "../logs/s", "/s", "../logs2/s", "d/../../logs2/s", "../logs2/../logs/s",
+			"/../s", "//../s", "/../logs2/s", "/d/../../s"}[c-1]
 	}
 	var r *LogData
 	pv := zzvf.PanicValue(func() { r = lg.Read(file, -1, 100) })
